@@ -6,4 +6,5 @@ META = {
             'coverage reaches.',
     'note': 'Trusted: the brute-force cycle/SCC reference in vt/props/c16.py and refpeg\'s nullable/left-call analysis; CrossHair used as the enumerator of '
             'selector values for the runtime obligations (bodies run natively per path). Known finding F2 is identified by graph shape.',
+    'technique': 'solver-chosen rule graphs (adjacency bits / element-kind selectors, every value explored by CrossHair/z3); mark_left_recursion executed symbolically on the graph; compile/parse per graph executed natively',
 }
